@@ -189,6 +189,10 @@ impl ZerokitMerkleTree for PmTree {
         if v.is_empty() {
             return Ok(());
         }
+        match start.checked_add(v.len()) {
+            Some(end) if end <= self.capacity() => (),
+            _ => return Err(Report::msg("provided range exceeds set size")),
+        }
         self.tree
             .set_range(start, v.clone().into_iter())
             .map_err(|e| Report::msg(e.to_string()))?;
